@@ -37,6 +37,8 @@ def hfImpl (f k m : Nat) : Nat :=
   | 10 => k % 8
   | 11 => if m ≥ 4 then modm k m else (if k % 2 = 1 then m else 0)
   | 12 => if m ≤ 4 then modm k m else (if k % 4 = 3 then (m + 1) % 2 ^ 64 else modm k m)
+  | 13 => if k % 4 = 3 then 2 ^ 32 + modm k m else modm k m
+  | 14 => 2 ^ 63 + modm k m
   | _ => 0
 
 structure HState where
